@@ -329,13 +329,32 @@ def writeFile (env : Env) (base p : Str) (data : List Nat) (r : Run) : Run :=
       | some .dir => { r with fs := (p, .file data) :: r.fs, evs := r.evs ++ [.write p] }
       | _ => { r with evs := r.evs ++ [.write p], err := some .writeFailed }
 
+/-- `enumerate(l, n)` -/
+def indexed {α} : List α → Nat → List (Nat × α)
+  | [], _ => []
+  | x :: r, n => (n, x) :: indexed r (n + 1)
+
+/-- `wanted` of `extractall`: none = `members=None` (everything); some l = the indices of the entries passed as
+    `members` (the code keeps `id(member)`; `list()` hands out the reader's own FileInfo objects, so identity is
+    the position in the file list). -/
+abbrev Wanted := Option (List Nat)
+
+def isWanted (w : Wanted) (i : Nat) : Bool :=
+  match w with
+  | none => true
+  | some l => l.contains i
+
 /-- body of the loop of `_extract_files_from_folder` for one file; `off` is the running offset. -/
-def extractOne (env : Env) (cwd base : Str) (data : List Nat) (f : FileInfo) (st : Run × Nat) : Run × Nat :=
+def extractOne (env : Env) (cwd base : Str) (data : List Nat) (w : Wanted) (nf : Nat × FileInfo) (st : Run × Nat) : Run × Nat :=
   let (r, off) := st
+  let f := nf.2
   match r.err with
   | some _ => st
   | none =>
-    if f.isDirectory then
+    if !isWanted w nf.1 then
+      -- not requested: step over its bytes without writing anything
+      (r, if f.isDirectory then off else off + f.uncompressed)
+    else if f.isDirectory then
       match safeJoin cwd base f.filename with
       | .error e => ({ r with err := some e }, off)
       | .ok p => (mkdirs env base p r, off)
@@ -349,22 +368,52 @@ def extractOne (env : Env) (cwd base : Str) (data : List Nat) (f : FileInfo) (st
         (writeFile env base p ((data.drop off).take f.uncompressed) r1, off + f.uncompressed)
 
 /-- `_extract_files_from_folder` -/
-def extractFolder (env : Env) (cwd base : Str) (data : List Nat) (fs : List FileInfo) (r : Run) : Run :=
-  (fs.foldl (fun st f => extractOne env cwd base data f st) (r, 0)).1
+def extractFolder (env : Env) (cwd base : Str) (data : List Nat) (w : Wanted) (fs : List (Nat × FileInfo)) (r : Run) : Run :=
+  (fs.foldl (fun st nf => extractOne env cwd base data w nf st) (r, 0)).1
 
-/-- `extractall`: `folderData[k]` = decoded bytes of folder k (none = `_decompress_folder` raises). -/
+/-- `_needed_output`: end offset of the last requested file of a folder (none if there is none) -/
+def neededOutput (w : Wanted) : List (Nat × FileInfo) → Nat → Option Nat → Option Nat
+  | [], _, needed => needed
+  | nf :: r, off, needed =>
+    if nf.2.isDirectory then neededOutput w r off needed
+    else
+      let off' := off + nf.2.uncompressed
+      neededOutput w r off' (if isWanted w nf.1 then some off' else needed)
+
+/-- what `extractall` does with a folder: none = skip it undecoded; some m = decode it, at most `m` bytes if given -/
+def folderPlan (w : Wanted) (mine : List (Nat × FileInfo)) : Option (Option Nat) :=
+  match w with
+  | none => some none
+  | some _ =>
+    match neededOutput w mine 0 none with
+    | none => none
+    | some m => some (some m)
+
+/-- `max_output` of the decoders: the decoded bytes are a prefix -/
+def truncTo (m : Option Nat) (d : List Nat) : List Nat :=
+  match m with
+  | none => d
+  | some m => d.take m
+
+/-- folder loop of `extractall`: `folderData[k]` = decoded bytes of folder k (none = `_decompress_folder` raises).
+    With `members` given, a folder holding no requested member is not decoded at all and the others are decoded
+    no further than the end of their last requested member. -/
 def extractAll (env : Env) (cwd base : Str) (files : List FileInfo) (fmap : List (Nat × Nat))
-    (folderData : List (Option (List Nat))) : (k : Nat) → List Nat → Run → Run
+    (folderData : List (Option (List Nat))) (w : Wanted) : (k : Nat) → List Nat → Run → Run
   | _, [], r => r
   | k, _ :: rest, r =>
     match r.err with
     | some _ => r
     | none =>
-      let mine := (fmap.filter (fun ij => ij.2 == k)).filterMap (fun ij => files[ij.1]?)
-      if mine.isEmpty then extractAll env cwd base files fmap folderData (k + 1) rest r
-      else match folderData.getD k none with
-        | none => { r with err := some .decodeFailed }
-        | some d => extractAll env cwd base files fmap folderData (k + 1) rest (extractFolder env cwd base d mine r)
+      let mine := (fmap.filter (fun ij => ij.2 == k)).filterMap (fun ij => (files[ij.1]?).map (fun f => (ij.1, f)))
+      if mine.isEmpty then extractAll env cwd base files fmap folderData w (k + 1) rest r
+      else match folderPlan w mine with
+        | none => extractAll env cwd base files fmap folderData w (k + 1) rest r   -- nothing requested: not decoded
+        | some maxOut =>
+          match folderData.getD k none with
+          | none => { r with err := some .decodeFailed }
+          | some d =>
+            extractAll env cwd base files fmap folderData w (k + 1) rest (extractFolder env cwd base (truncTo maxOut d) w mine r)
 
 /-- body of the empty-file loop at the end of `extractall`: `_safe_join`, `_mkdirs(dirname)`, `open(…, "wb")` -/
 def writeEmpty (env : Env) (cwd base : Str) (f : FileInfo) (r : Run) : Run :=
@@ -378,18 +427,18 @@ def writeEmpty (env : Env) (cwd base : Str) (f : FileInfo) (r : Run) : Run :=
       let r1 := if parent.isEmpty then r else mkdirs env base parent r
       writeFile env base p [] r1
 
-/-- `for file_idx in self._empty_file_indices: …` -/
-def extractEmpties (env : Env) (cwd base : Str) (files : List FileInfo) (r : Run) : Run :=
-  (files.filter (·.emptyFile)).foldl (fun r f => writeEmpty env cwd base f r) r
+/-- `for file_idx in self._empty_file_indices: if wanted …: continue; …` -/
+def extractEmpties (env : Env) (cwd base : Str) (files : List FileInfo) (w : Wanted) (r : Run) : Run :=
+  ((indexed files 0).filter (fun nf => nf.2.emptyFile && isWanted w nf.1)).foldl (fun r nf => writeEmpty env cwd base nf.2 r) r
 
 /-- `extractall` as a whole: the folders, then (if nothing raised) the empty files -/
 def extractAllFull (env : Env) (cwd base : Str) (files : List FileInfo) (fmap : List (Nat × Nat))
-    (folderData : List (Option (List Nat))) (folders : List Nat) (r : Run) : Run :=
-  extractEmpties env cwd base files (extractAll env cwd base files fmap folderData 0 folders r)
+    (folderData : List (Option (List Nat))) (folders : List Nat) (w : Wanted) (r : Run) : Run :=
+  extractEmpties env cwd base files w (extractAll env cwd base files fmap folderData w 0 folders r)
 
-/-- pre-filter of `_extract_from_7z_optimized` -/
-def select7z (skip : Str → Str → Bool) (lim : Limits) (files : List FileInfo) : List FileInfo :=
-  files.filter (fun f => !f.isDirectory && !skip f.filename (basename f.filename) && !(f.uncompressed > lim.maxMemory))
+/-- pre-filter of `_extract_from_7z_optimized`: (position in the file list, entry) of what will be processed -/
+def select7z (skip : Str → Str → Bool) (lim : Limits) (files : List FileInfo) : List (Nat × FileInfo) :=
+  (indexed files 0).filter (fun nf => !nf.2.isDirectory && !skip nf.2.filename (basename nf.2.filename) && !(nf.2.uncompressed > lim.maxMemory))
 
 /-- one generator step of the read-back loop: events, then the results yielded -/
 structure Step where
@@ -464,11 +513,12 @@ def run7zWith (readStep : Overlay → FileInfo → Step) (skip : Str → Str →
     let fmap := mapFiles a.folders files 0 0 0
     let todo := select7z skip lim files
     -- with tempfile.TemporaryDirectory() as temp_dir:
-    let r := extractAllFull env cwd base files fmap a.folderData a.folders ⟨[], [], none⟩
+    -- szf.extractall(path=temp_dir, members=[file_info for file_info, _, _ in files_to_process])
+    let r := extractAllFull env cwd base files fmap a.folderData a.folders (some (todo.map (·.1))) ⟨[], [], none⟩
     match r.err with
     | some e => ⟨[.mkdtemp base] ++ r.evs ++ [.rmtree base], [], .failed e⟩
     | none =>
-      let steps := todo.map (readStep r.fs)
+      let steps := todo.map (fun nf => readStep r.fs nf.2)
       let lim' := match c with | .exhaust => none | .closeAfter k => some k
       let t := consume lim' steps
       ⟨[.mkdtemp base] ++ r.evs ++ t.1 ++ [.rmtree base], t.2.1, if t.2.2 then .closed else .finished⟩
@@ -485,7 +535,7 @@ inductive FsEvent
   | mkdtemp (p : Str)
   | rmtree (p : Str) (goneAfter : Bool)
   | mkdir (p : Str)
-  | mkdirExisting (p : Str)          -- os.mkdir on a directory that already exists: fails with EEXIST, no effect
+  | mkdirExisting (p : Str)          -- os.mkdir that fails without effect: the target exists (EEXIST) or its parent is not an existing directory (ENOTDIR/ENOENT)
   | openW (p : Str)
   | openR (p : Str)
   | stat (p : Str)
